@@ -297,7 +297,7 @@ func (e *Engine) sizeof(t types.Type) int64 {
 func (e *Engine) lockInvFor(lv *LVal) *LockInv {
 	for _, cf := range e.cfiles {
 		for _, li := range cf.LockInvs {
-			if strings.HasSuffix(lv.TK, "."+li.Type) || strings.Contains(lv.TK, "."+li.Type+"[") {
+			if strings.HasSuffix(lv.TK, "."+li.Type) || strings.HasSuffix(lv.TK, "."+li.Type+"[]") {
 				return li
 			}
 		}
@@ -389,6 +389,16 @@ func (vc *VC) lockAcquire(li *LockInv, lv *LVal) []Loc {
 			// old() in the contract of a monitor method refers to the state at acquisition
 			vc.entryAtLock = true
 			vc.entry = vc.st.clone()
+			// the frame of a monitor method is read in the state at acquisition too
+			if vc.curFrame != nil {
+				root := vc.curFrame
+				for root.parent != nil {
+					root = root.parent
+				}
+				if root.isRoot {
+					vc.rootMods = vc.modLocs(vc.fi, vc.fi.C.Modifies, vc.clauseArgsFrame(root), vc.st)
+				}
+			}
 		}
 	}
 	return locs
